@@ -103,6 +103,9 @@ pub fn install_panic_hook() {
         } else {
             "<non-string payload>".into()
         };
+        if std::env::var_os("VERIF_BT").is_some() {
+            eprintln!("PANIC {} {}\n{}", loc, msg, std::backtrace::Backtrace::force_capture());
+        }
         let msg = msg.lines().next().unwrap_or("").chars().take(200).collect();
         LAST_PANIC.with(|p| *p.borrow_mut() = Some(Panic { loc, msg }));
     }));
